@@ -171,4 +171,11 @@ def run(case):
     return res
 
 
-PARTS = [Part("events", strategy=lambda tier: cases(tier), run=run, quick=3000, thorough=150000)]
+from vlib import c02xy
+
+PARTS = [
+    Part("events", strategy=lambda tier: cases(tier), run=run, quick=3000, thorough=150000),
+    Part("xy", strategy=lambda tier: c02xy.cases(tier), run=c02xy.run_xy, quick=640, thorough=9600),
+]
+RULE = RULE.replace("tabular: see part xy. ", "xy (tabular API): " + c02xy.RULE + " ")
+ASSUMPTIONS = ASSUMPTIONS + list(c02xy.ASSUMPTIONS)
